@@ -145,7 +145,10 @@ void ebpps_sample<T,A>::merge(FwdSample&& other) {
   if (c_frac == 0.0 && other_c_frac == 0.0) {
     partial_item_.reset();
   } else if (c_frac + other_c_frac == 1.0 || c_ == std::floor(c_)) {
-    if (next_double() <= c_frac) {
+    if (c_frac + other_c_frac < 0.5) {
+      // c_ is integral because the fractional parts were too small to register
+      // in the sum, not because they add up to 1: no partial item becomes a full item
+    } else if (next_double() <= c_frac) {
       if (partial_item_)
         data_.emplace_back(std::move(*partial_item_));
     } else {
